@@ -214,7 +214,7 @@ def recvLine (d : DSt) (j : Json) (src dst : Nat) (m0 : Msg) : DSt × List Strin
     | some _ =>
       let (w', r) := st.w.recv st.cfg src dst m env
       let ret := match r with | some r => r.ret | none => "?"
-      let ret := if fault.isSome && ret == "err:add-sig" then "err:db-busy" else ret
+      let ret := if fault.isSome && ret == "err:add-sig" then (if jStr j "faultkind" == "cancel" then "err:ctx-cancelled" else "err:db-busy") else ret
       let viol := match m with
         | .listQuery _ refs =>
           if hasOrder && !refs.isEmpty then
